@@ -44,10 +44,17 @@ def holder_case(draw):
             else:
                 vals.append(['f', repr(draw(st.floats(allow_nan=False, allow_infinity=False, width=64)))])
         series.append([nm, vals])
+    # the holder is a dict: series may be added or removed through any dict method between two renderings
+    later = []
+    for _ in range(draw(st.sampled_from([0, 0, 1, 2, 3]))):
+        how = draw(st.sampled_from(['update', 'setdefault', 'setitem', 'append-value', 'pop', 'del', 'ior']))
+        nm = draw(st.sampled_from(NAMES))
+        n = draw(st.sampled_from([2, 1, 3, 4]))
+        later.append([how, nm, [['f', repr(draw(st.integers(-1000, 1000)) / 8.0)] for _ in range(n)]])
     fk = draw(st.sampled_from(['g', 'f', 'e', 's', 'r', 'default']))
     prec = draw(st.integers(0, 17))
     fmt = {'g': '%%.%dg' % prec, 'f': '%%.%df' % min(prec, 12), 'e': '%%.%de' % prec, 's': '%s', 'r': '%r', 'default': None}[fk]
-    return {'series': series, 'fmt': fmt}
+    return {'series': series, 'fmt': fmt, 'later': later}
 
 
 def val(v):
@@ -141,10 +148,46 @@ def run_holder(spec):
     check_table(text, data, fmt if fmt is not None else '%.5g')
     if h.GetSeriesList() != (text.split('\n')[0].split('\t') if data else []):
         raise Violation('C19/serieslist', 'GetSeriesList() %r differs from the header' % (h.GetSeriesList(),))
+    # second rendering after changes made through the dict API
+    changed = False
+    for how, nm, vals in spec.get('later', []):
+        v = [val(x) for x in vals]
+        if how == 'update':
+            h.update({nm: list(v)})
+            data[nm] = v
+        elif how == 'ior':
+            h |= {nm: list(v)}
+            data[nm] = v
+        elif how == 'setdefault':
+            h.setdefault(nm, list(v))
+            data.setdefault(nm, v)
+        elif how == 'setitem':
+            h[nm] = list(v)
+            data[nm] = v
+        elif how == 'append-value':
+            h.AppendValue(nm, v[0])
+            data.setdefault(nm, [])
+            data[nm] = data[nm] + [v[0]]
+        elif how == 'pop':
+            h.pop(nm, None)
+            data.pop(nm, None)
+        elif how == 'del':
+            if nm in h:
+                del h[nm]
+                del data[nm]
+        changed = True
+        try:
+            text2 = h.GenerateCSVtext() if fmt is None else h.GenerateCSVtext(fmt)
+        except Exception as ex:
+            raise Violation('C19/render-raises-after-change', 'after %s(%r) GenerateCSVtext raised %s: %s' %
+                            (how, nm, type(ex).__name__, ex))
+        check_table(text2, data, fmt if fmt is not None else '%.5g', bucket='C19/after-dict-change')
     lens = set(len(v) for v in data.values())
     pri_late = any(nm in PRIORITY for nm, _ in spec['series'][1:])
     nonint = any(v[0] == 'f' for nm, vals in spec['series'] for v in vals)
     labels = ['fmt:' + (fmt or 'default')[-1]]
+    if changed:
+        labels.append('re-rendered-after-dict-change')
     if len(lens) > 1:
         labels.append('ragged')
     return {'nontrivial': len(data) >= 3 and pri_late and len(lens) > 1 and nonint, 'labels': labels}
